@@ -678,8 +678,19 @@ func (c *Channel) processInFlightQueue(t int64) bool {
 
 	dirty := false
 	for {
+		// take the message off the deadline heap AND out of the in-flight map in one
+		// critical section: with two, a REQ plus a redelivery of the same message in
+		// between made this scan time out the fresh delivery at once
 		c.inFlightMutex.Lock()
 		msg, _ := c.inFlightPQ.PeekAndShift(t)
+		if msg != nil {
+			if m, ok := c.inFlightMessages[msg.ID]; ok && m == msg {
+				delete(c.inFlightMessages, msg.ID)
+			} else {
+				msg = nil
+				dirty = true
+			}
+		}
 		c.inFlightMutex.Unlock()
 
 		if msg == nil {
@@ -688,10 +699,6 @@ func (c *Channel) processInFlightQueue(t int64) bool {
 		dirty = true
 
 		verifPoint("chan.scan.afterPQPop")
-		_, err := c.popInFlightMessage(msg.clientID, msg.ID)
-		if err != nil {
-			goto exit
-		}
 		atomic.AddUint64(&c.timeoutCount, 1)
 		c.RLock()
 		client, ok := c.clients[msg.clientID]
